@@ -205,8 +205,19 @@ impl<const N: usize> UdpAssociateContext<N> {
 }
 /// server.rs startup_quic (accept loop): NOT verified
 #[verifier::external_body]
-fn startup_quic<const N: usize, F: FnOnce(&ServerContext<N>) -> anyhow::Result<sssrv__PayloadCodec<N>>>(context: ServerContext<N>, config: &ServerConfig<SslConfig>, new_codec: F) -> (r: anyhow::Result<()>)
+fn srv__startup_quic<const N: usize, F: FnOnce(&ServerContext<N>) -> anyhow::Result<sssrv__PayloadCodec<N>>>(context: ServerContext<N>, config: &ServerConfig<SslConfig>, new_codec: F) -> (r: anyhow::Result<()>)
 { unimplemented!() }
+/// server.rs startup_tcp (TCP accept loop): NOT verified
+#[verifier::external_body]
+fn srv__startup_tcp<const N: usize, F: FnOnce(&ServerContext<N>) -> anyhow::Result<sssrv__PayloadCodec<N>>>(context: ServerContext<N>, config: &ServerConfig<SslConfig>, new_codec: F) -> (r: anyhow::Result<()>)
+{ unimplemented!() }
+impl<const N: usize> ServerUserManager<N> {
+    /// manager/shadowsocks.rs ServerUserManager::{new, add_user} (HashMap): NOT verified
+    #[verifier::external_body]
+    fn new() -> (r: Self) ensures r.count() == 0 { unimplemented!() }
+    #[verifier::external_body]
+    fn add_user(&mut self, user: ServerUser<N>) { unimplemented!() }
+}
 /// every entry of the association table serves the session it is filed under
 spec fn table_ok<const N: usize>(t: LruCache<u64, UdpAssociate<N>>) -> bool { forall|k: u64| t.m().contains_key(k) ==> (#[trigger] t.m()[k]).sid() == k }
 
@@ -362,8 +373,65 @@ fn startup_udp<const N: usize>(config: &ServerConfig<SslConfig>, user_manager: &
         Ok(())
     } else {
         let context: ServerContext<N> = ServerContext::init(config, user_manager.clone())?;
-        startup_quic(context, config, |c| Ok(sssrv__PayloadCodec::from(c)))
+        srv__startup_quic(context, config, |c| Ok(sssrv__PayloadCodec::from(c)))
     }
+}
+
+
+//@@ octo-squirrel-server/src/server/shadowsocks.rs:44-74  fn startup  sha=f9e9296b8572f902
+// (runs for as long as its services run)
+#[verifier::exec_allows_no_decreases_clause]
+fn startup(config: &ServerConfig<SslConfig>, Tracked(vlog): Tracked<&mut AssocLog>) -> (r: anyhow::Result<()>)
+    ensures
+        //#C16
+        // an unknown cipher name stops startup with an error
+        config.cipher is Unknown ==> r is Err,
+    // (that every known cipher name starts its services with keys of exactly the size the name stands for - 16 bytes for aes-128-gcm and
+    // 2022-blake3-aes-128-gcm, 32 for the others - is the precondition `N == key_len_of(config.cipher)` of startup_udp / startup_tcp, discharged below)
+{
+    let res = match config.cipher {
+        CipherKind::Aes128Gcm | CipherKind::Aead2022Blake3Aes128Gcm => {
+            let mut user_manager: ServerUserManager<16> = ServerUserManager::new();
+            for user in config.user.iter() {
+                user_manager.add_user(ServerUser::try_from(user).map_err(|e| verif_err())?);
+            }
+            let user_manager = Arc::new(user_manager);
+            (startup_udp::<16>(config, &user_manager, Tracked(vlog)), startup_tcp::<16>(config, &user_manager))
+        }
+        CipherKind::Aes256Gcm
+        | CipherKind::Aead2022Blake3Aes256Gcm
+        | CipherKind::ChaCha20Poly1305
+        | CipherKind::Aead2022Blake3ChaCha8Poly1305
+        | CipherKind::Aead2022Blake3ChaCha20Poly1305 => {
+            let mut user_manager: ServerUserManager<32> = ServerUserManager::new();
+            for user in config.user.iter() {
+                user_manager.add_user(ServerUser::try_from(user).map_err(|e| verif_err())?);
+            }
+            let user_manager = Arc::new(user_manager);
+            (startup_udp::<32>(config, &user_manager, Tracked(vlog)), startup_tcp::<32>(config, &user_manager))
+        }
+        CipherKind::Unknown => return Err(verif_err()),
+    };
+    match res {
+        (Ok(_), Ok(_)) => Ok(()),
+        (Ok(_), Err(e)) => return Err(verif_err()),
+        (Err(e), Ok(_)) => return Err(verif_err()),
+        (Err(e1), Err(e2)) => return Err(verif_err()),
+    }
+}
+
+
+//@@ octo-squirrel-server/src/server/shadowsocks.rs:76-82  fn startup_tcp  sha=b6e808d99b150591
+fn startup_tcp<const N: usize>(config: &ServerConfig<SslConfig>, user_manager: &Arc<ServerUserManager<N>>) -> (r: anyhow::Result<()>)
+    requires
+        //#C16
+        16 <= N <= 32, !(config.cipher is Unknown), N == key_len_of(config.cipher),
+{
+    if !config.mode.enable_tcp() {
+        return Ok(());
+    }
+    let context: ServerContext<N> = ServerContext::init(config, user_manager.clone())?;
+    srv__startup_tcp(context, config, |c| Ok(sssrv__PayloadCodec::from(c)))
 }
 
 
